@@ -732,30 +732,12 @@ func c05EntropyAgree(r *core.Run) {
 		}
 		return false
 	}
-	for _, fn := range append(scannerFuncs(p), p.FuncsIn("pkg/detection")...) {
-		core.InstrsOf(fn, func(in ssa.Instruction) {
-			var a, b ssa.Value
-			switch x := in.(type) {
-			case *ssa.BinOp:
-				if x.Op != token.SUB {
-					return
-				}
-				a, b = x.X, x.Y
-			case *ssa.Call:
-				g := core.StaticCallee(&x.Call)
-				if g == nil || !p.IsProdFunc(g) || len(x.Call.Args) != 2 || !isFloat64(x.Call.Args[0].Type()) || !isFloat64(x.Call.Args[1].Type()) {
-					return
-				}
-				a, b = x.Call.Args[0], x.Call.Args[1]
-			default:
-				return
+	for _, pr := range floatPairs(p, append(scannerFuncs(p), p.FuncsIn("pkg/detection")...)) {
+		for _, pair := range [][2]ssa.Value{{pr[0], pr[1]}, {pr[1], pr[0]}} {
+			if path, isT := topoFieldPath(pair[0]); isT && isSigScore(pair[1]) {
+				consumed[path]++
 			}
-			for _, pair := range [][2]ssa.Value{{a, b}, {b, a}} {
-				if path, isT := topoFieldPath(pair[0]); isT && isSigScore(pair[1]) {
-					consumed[path]++
-				}
-			}
-		})
+		}
 	}
 	var cs []string
 	for c := range consumed {
@@ -793,65 +775,50 @@ func c05PackArgs(r *core.Run) {
 	}
 	// the score slot: which decoder result is compared with a figure of the scanned topology
 	scoreSlot := -1
-	for _, fn := range scannerFuncs(p) {
-		core.InstrsOf(fn, func(in ssa.Instruction) {
-			b, ok := in.(*ssa.BinOp)
-			if !ok || b.Op != token.SUB {
-				return
+	for _, pr := range floatPairs(p, scannerFuncs(p)) {
+		for _, pair := range [][2]ssa.Value{{pr[0], pr[1]}, {pr[1], pr[0]}} {
+			if _, isT := topoFieldPath(pair[0]); !isT {
+				continue
 			}
-			for _, pair := range [][2]ssa.Value{{b.X, b.Y}, {b.Y, b.X}} {
-				if _, isT := topoFieldPath(pair[0]); !isT {
-					continue
+			switch v := core.Unwrap(pair[1]).(type) {
+			case *ssa.Extract:
+				if c, isCall := v.Tuple.(*ssa.Call); isCall && core.StaticCallee(&c.Call) == dec {
+					scoreSlot = v.Index
 				}
-				switch v := core.Unwrap(pair[1]).(type) {
-				case *ssa.Extract:
-					if c, isCall := v.Tuple.(*ssa.Call); isCall && core.StaticCallee(&c.Call) == dec {
-						scoreSlot = v.Index
+			case *ssa.Field:
+				if c, isCall := v.X.(*ssa.Call); isCall && core.StaticCallee(&c.Call) == dec {
+					scoreSlot = v.Field
+				}
+			case *ssa.UnOp:
+				if fa, isFA := v.X.(*ssa.FieldAddr); isFA {
+					var srcs []ssa.Value
+					if al, isAl := fa.X.(*ssa.Alloc); isAl {
+						for _, sto := range core.StoresTo(al) {
+							srcs = append(srcs, core.Origins(sto.Val)...)
+						}
+					} else {
+						srcs = core.Origins(core.LoadOf(fa.X))
 					}
-				case *ssa.Field:
-					if c, isCall := v.X.(*ssa.Call); isCall && core.StaticCallee(&c.Call) == dec {
-						scoreSlot = v.Field
-					}
-				case *ssa.UnOp:
-					if fa, isFA := v.X.(*ssa.FieldAddr); isFA {
-						for _, o := range core.Origins(core.LoadOf(fa.X)) {
-							if c, isCall := o.(*ssa.Call); isCall && core.StaticCallee(&c.Call) == dec {
-								scoreSlot = fa.Field
-							}
+					for _, o := range srcs {
+						if c, isCall := o.(*ssa.Call); isCall && core.StaticCallee(&c.Call) == dec {
+							scoreSlot = fa.Field
 						}
 					}
 				}
 			}
-		})
+		}
 	}
 	// the signature field that is the score for the matcher and the JSON backend
 	scoreField := ""
-	for _, fn := range append(scannerFuncs(p), p.FuncsIn("pkg/detection")...) {
-		core.InstrsOf(fn, func(in ssa.Instruction) {
-			var a, b ssa.Value
-			switch x := in.(type) {
-			case *ssa.BinOp:
-				if x.Op != token.SUB {
-					return
-				}
-				a, b = x.X, x.Y
-			case *ssa.Call:
-				if g := core.StaticCallee(&x.Call); g == nil || !p.IsProdFunc(g) || len(x.Call.Args) != 2 {
-					return
-				}
-				a, b = x.Call.Args[0], x.Call.Args[1]
-			default:
-				return
+	for _, pr := range floatPairs(p, append(scannerFuncs(p), p.FuncsIn("pkg/detection")...)) {
+		for _, pair := range [][2]ssa.Value{{pr[0], pr[1]}, {pr[1], pr[0]}} {
+			if _, isT := topoFieldPath(pair[0]); !isT {
+				continue
 			}
-			for _, pair := range [][2]ssa.Value{{a, b}, {b, a}} {
-				if _, isT := topoFieldPath(pair[0]); !isT {
-					continue
-				}
-				if base, name, ok := fieldLoadBy(core.Unwrap(pair[1]), isFloat64); ok && strings.HasSuffix(core.Deref(base.Type()).String(), "detection.Signature") {
-					scoreField = name
-				}
+			if base, name, ok := fieldLoadBy(core.Unwrap(pair[1]), isFloat64); ok && strings.HasSuffix(core.Deref(base.Type()).String(), "detection.Signature") {
+				scoreField = name
 			}
-		})
+		}
 	}
 	if !r.Floor("C05.PACKARGS", "score slot of the packed value and score field of a signature", map[bool]int{true: 1, false: 0}[scoreSlot >= 0 && scoreField != ""], 1) {
 		return
@@ -892,4 +859,66 @@ func c05PackArgs(r *core.Run) {
 	sortStrings(os)
 	r.Check(len(os) <= 1, "C05.PACKARGS", "encoder-call-sites#agree", token.NoPos, "all writers of the packed index value agree on its fields", "the writers of the packed index value disagree on what goes into the tolerance slot: "+strings.Join(os, ", "))
 	r.Floor("C05.PACKARGS", "calls of the packed-value encoder", n, 3)
+}
+
+// floatPairs lists the operand pairs of float subtractions (and of two-float-argument calls of repository
+// functions) in fns; an operand that is a parameter of a helper is replaced by what each caller passes.
+func floatPairs(p *core.Program, fns []*ssa.Function) [][2]ssa.Value {
+	var out [][2]ssa.Value
+	expand := func(fn *ssa.Function, v ssa.Value) []ssa.Value {
+		prm, ok := core.Unwrap(v).(*ssa.Parameter)
+		if !ok {
+			return []ssa.Value{v}
+		}
+		var vals []ssa.Value
+		for i, q := range fn.Params {
+			if q != prm {
+				continue
+			}
+			for _, site := range callersOf(p, fn) {
+				if args := core.CallArgs(site.Common()); i < len(args) {
+					vals = append(vals, args[i])
+				}
+			}
+		}
+		if len(vals) == 0 {
+			return []ssa.Value{v}
+		}
+		return vals
+	}
+	for _, fn := range fns {
+		fn := fn
+		core.InstrsOf(fn, func(in ssa.Instruction) {
+			var a, b ssa.Value
+			switch x := in.(type) {
+			case *ssa.BinOp:
+				if x.Op != token.SUB || !isFloat64(x.Type()) {
+					return
+				}
+				a, b = x.X, x.Y
+			case *ssa.Call:
+				g := core.StaticCallee(&x.Call)
+				if g == nil || !p.IsProdFunc(g) || len(x.Call.Args) != 2 || !isFloat64(x.Call.Args[0].Type()) || !isFloat64(x.Call.Args[1].Type()) {
+					return
+				}
+				a, b = x.Call.Args[0], x.Call.Args[1]
+			default:
+				return
+			}
+			as, bs := expand(fn, a), expand(fn, b)
+			if len(as) == len(bs) && len(as) > 1 {
+				// both operands are parameters: pair them per call site
+				for i := range as {
+					out = append(out, [2]ssa.Value{as[i], bs[i]})
+				}
+				return
+			}
+			for _, x := range as {
+				for _, y := range bs {
+					out = append(out, [2]ssa.Value{x, y})
+				}
+			}
+		})
+	}
+	return out
 }
